@@ -15,6 +15,7 @@ EXTENDS ApiSponge, Sym, TLC
 CONSTANTS MaxIn, MaxOut,    \* bounds in blocks: total input <= MaxIn*rin + 5, output <= MaxOut*rout + 5
           Kinds,            \* subset of {"xof", "xofa", "prf"}
           WithCopy,         \* explore copies (only XOF/XOFA/HASH objects can be copied)
+          ChunkLens,        \* chunk lengths explored (a set of naturals; bounds still apply)
           Duplex            \* explore absorb-after-squeeze (second phase bounded by one block + 1 each way)
 
 VARIABLES kind,    \* "xof" | "xofa" | "prf"
@@ -41,16 +42,18 @@ Init == /\ kind \in Kinds
         /\ o = Fresh0(kind) /\ o2 = <<>> /\ start = Fresh0(kind).s
         /\ hin = <<>> /\ hout = <<>> /\ hin2 = <<>> /\ hout2 = <<>> /\ phaseNo = 1 /\ reinits = 0
 
-DoAbsorb(n) == /\ o.mode = 0 /\ Len(hin) + n <= (IF phaseNo = 1 THEN InBound ELSE Par.rin + 1)
+DoAbsorb(n) == /\ o2 = <<>> /\ o.mode = 0 /\ Len(hin) + n <= (IF phaseNo = 1 THEN InBound ELSE Par.rin + 1)
              /\ LET d == Syms(<<"m", phaseNo>>, Len(hin), n) IN
                 /\ o' = SpAbsorb(Par, o, d) /\ hin' = hin \o d
              /\ UNCHANGED <<kind, o2, start, hout, hin2, hout2, phaseNo, reinits>>
 
-DoSqueeze(n) == /\ Len(hout) + n <= (IF phaseNo = 1 THEN OutBound ELSE Par.rout + 1)
+DoSqueeze(n) == /\ o2 = <<>> /\ Len(hout) + n <= (IF phaseNo = 1 THEN OutBound ELSE Par.rout + 1)
               /\ LET r == SpSqueeze(Par, o, n) IN o' = r.o /\ hout' = hout \o r.out
               /\ UNCHANGED <<kind, o2, start, hin, hin2, hout2, phaseNo, reinits>>
 
-\* copy at any point; the copy then squeezes on its own
+\* copy at any point; the copy then squeezes on its own (the original is frozen from then on: in
+\* this functional model an action on one object cannot touch another, the real library's
+\* independence of original and copy is bound by the trace-validated random walks)
 DoCopy == /\ WithCopy /\ o2 = <<>> /\ o2' = o /\ hout2' = hout /\ hin2' = hin
         /\ UNCHANGED <<kind, o, start, hin, hout, phaseNo, reinits>>
 DoSqueeze2(n) == /\ o2 # <<>> /\ Len(hout2) + n <= OutBound
@@ -71,8 +74,11 @@ Reinit == /\ reinits = 0 /\ (hin # <<>> \/ hout # <<>>)
           /\ hin' = <<>> /\ hout' = <<>> /\ hin2' = <<>> /\ hout2' = <<>> /\ phaseNo' = 1 /\ reinits' = 1
           /\ UNCHANGED kind
 
-Next == (\E n \in 0..InBound : DoAbsorb(n)) \/ (\E n \in 0..OutBound : DoSqueeze(n) \/ DoSqueeze2(n))
-        \/ DoCopy \/ (\E n \in 0..33 : ReAbsorb(n)) \/ Reinit
+Next == (\E n \in ChunkLens : DoAbsorb(n) \/ DoSqueeze(n) \/ DoSqueeze2(n) \/ ReAbsorb(n))
+        \/ DoCopy \/ Reinit
+AllChunks == 0..69
+DuplexChunks == 0..37
+CopyChunks == 0..13
 Spec == Init /\ [][Next]_vars
 
 -----------------------------------------------------------------------------
